@@ -445,8 +445,19 @@ func (w *World) doWrite(s fs_db.Store, key string, b []byte, op Op) error {
 		}
 		rest := b
 		var werr error
+		// every piece goes through one scratch buffer that is overwritten as soon as Write has
+		// returned, as io.Copy does: an io.Writer must not retain the slice it was given
+		var scratch []byte
 		write := func(p []byte) bool {
-			_, werr = f.Write(p)
+			if cap(scratch) < len(p) {
+				scratch = make([]byte, len(p))
+			}
+			q := scratch[:len(p)]
+			copy(q, p)
+			_, werr = f.Write(q)
+			for i := range q {
+				q[i] ^= 0xA5
+			}
 			return werr == nil
 		}
 		if len(op.Split) == 0 {
